@@ -125,6 +125,7 @@ type timerv struct {
 }
 
 type run struct {
+	repeats map[string]repeatRec // strings known to be n copies of a literal
 	fmtPlus bool // %+v in progress
 	e      *engine
 	h      *harnessSpec
@@ -311,7 +312,7 @@ func (r *run) fresh(kind string, label string, sort Sort) *sym {
 	r.nvars++
 	r.solver.Declare(name, sort)
 	r.vars = append(r.vars, varDecl{Name: name, Label: label, Kind: kind, sort: sort})
-	if r.pin != nil {
+	if r.pin != nil && kind != "rep" {
 		if v, ok := r.pin[name]; ok && v != "" {
 			r.solver.Assert("(= " + name + " " + v + ")")
 		}
@@ -1040,6 +1041,9 @@ func (r *run) usesClock() bool { return r.now != "" || r.nowC != 0 }
 func (r *run) fillModel(v *violation) {
 	names := make([]string, 0, len(r.vars))
 	for _, d := range r.vars {
+		if d.Kind == "rep" {
+			continue // content is determined by the count
+		}
 		names = append(names, d.Name)
 	}
 	vals := r.solver.GetValues(names)
@@ -1105,4 +1109,23 @@ func sortedKeys(m map[string]bool) []string {
 	}
 	sort.Strings(ks)
 	return ks
+}
+
+
+// repeatRec: the string variable is exactly n copies of lit (strings.Repeat with a symbolic
+// count). Its length is tied to n; escaping and prefix slicing stay exact.
+type repeatRec struct {
+	lit string
+	n   string
+}
+
+func (r *run) newRepeat(lit string, n string, label string) *sym {
+	v := r.fresh("rep", label, SStr)
+	if r.repeats == nil {
+		r.repeats = map[string]repeatRec{}
+	}
+	r.repeats[v.t] = repeatRec{lit, n}
+	r.assertPC(sx(">=", n, "0"))
+	r.assertPC(sx("=", "(str.len "+v.t+")", sx("*", smtInt(int64(len(lit))), n)))
+	return v
 }
